@@ -4,7 +4,8 @@
    the RFC decoder, and compares the octets with the model's.  Definitions only.
 
    case line:
-     kind                      1 = interface configuration built directly (radv::verif hook)
+     kind                      3 = end-to-end rig: configuration, then a captured advertisement (see check_wire)
+                               1 = interface configuration built directly (radv::verif hook)
                                2 = the same configuration rendered as YAML and loaded through
                                    config::verif_load_config_from_string
      top    : n {fam(4|6) octets(4|16)}   n {string}   opt(string)
@@ -146,8 +147,65 @@ Definition check_cfg (kind : N) (t : top) (i : intf) (e : env) (impl : list N) :
   | _ => v_bad
   end.
 
+(* ---- kind 3 (end-to-end rig, tools/rig.py scenario `ra`) ------------------------------
+   [3; top; intf; env; got; src*16; dst*16; hop limit; interface link-local*16; solicitor*16; string]
+   a router advertisement captured on a veth pair in answer to a router solicitation sent to the
+   REAL erbium binary.  top/intf are the configuration the binary was started with, env is what
+   the machine looks like (MAC and MTU of the interface, the address $self6 stands for, the router
+   lifetime that follows from the routing table); the string is the ICMPv6 message as it was on
+   the wire (checksum filled in by the kernel).  This reaches RaAdvService::build_announcement,
+   handle_solicit and send_announcement, which no function-level case does. *)
+Fixpoint sum16 (b : list N) : N :=
+  match b with
+  | h :: l :: r => h * 256 + l + sum16 r
+  | [h] => h * 256
+  | [] => 0
+  end.
+Definition fold16 (s : N) : N := let s1 := s mod 65536 + s / 65536 in s1 mod 65536 + s1 / 65536.
+(* RFC 4443 2.3: ones' complement sum over the IPv6 pseudo-header and the message *)
+Definition icmp6_cksum_ok (src dst b : list N) : bool :=
+  fold16 (sum16 (src ++ dst ++ be32 (lenN b) ++ [0; 0; 0; 58] ++ b)) =? 65535.
+Definition is_linklocal (a : list N) : bool :=
+  match a with 254 :: 128 :: r => all_zero (takeN 6 r) && (lenN r =? 14) | _ => false end.
+Definition all_nodes : list N := [255; 2; 0; 0; 0; 0; 0; 0; 0; 0; 0; 0; 0; 0; 0; 1].
+Definition zero_cksum (b : list N) : list N :=
+  match b with t :: c :: _ :: _ :: r => t :: c :: 0 :: 0 :: r | _ => b end.
+
+Definition check_wire (t : top) (i : intf) (e : env) (r : list N) : list N :=
+  match r with
+  | [0] => v_diff [0]                                   (* a solicitation was not answered *)
+  | 1 :: w =>
+    match (let* src := p_take 16 in let* dst := p_take 16 in let* hl := p_n in
+           let* ifll := p_take 16 in let* sol := p_take 16 in let* b := p_str in
+           pret (src, dst, hl, ifll, sol, b)) w with
+    | Some ((src, dst, hl, ifll, sol, b), []) =>
+      if negb (lengths_ok b) then v_viol 2
+      else if negb (reserved_zero b) then v_viol 3
+      else
+        match rfc_decode b with
+        | None => v_viol 7
+        | Some x =>
+          if negb (rfc_ra_eqb x (expected t i e)) then v_viol 7
+          (* RFC 4861 6.1.2: hop limit 255, link-local source, valid checksum -- or hosts discard it *)
+          else if negb ((hl =? 255) && bytes_eqb src ifll && is_linklocal src && icmp6_cksum_ok src dst b) then v_viol 8
+          else if negb (list_eqb N.eqb (0 :: put_bytes (zero_cksum b)) (model_out (build t i e)))
+               then v_diff (model_out (build t i e))
+          else if bytes_eqb dst sol then v_ok 300
+          else if bytes_eqb dst all_nodes then v_ok 301
+          else v_diff (1 :: sol)
+        end
+    | _ => v_bad
+    end
+  | _ => v_bad
+  end.
+
 Definition check_C17 (ts : list N) : list N :=
   match ts with
+  | 3 :: r =>
+    match (let* t := p_top in let* i := p_intf in let* e := p_env in pret (t, i, e)) r with
+    | Some ((t, i, e), w) => check_wire t i e w
+    | None => v_bad
+    end
   | kind :: r =>
     if negb ((kind =? 1) || (kind =? 2)) then v_bad else
     match (let* t := p_top in let* i := p_intf in let* e := p_env in pret (t, i, e)) r with
